@@ -86,7 +86,9 @@ impl SubRule {
         // RuleType::Insertion     => {/* skip match input */},
 
         if self.rule_type == RuleType::Insertion {
-            return self.transform(&word, vec![], &mut None)
+            let mut res = self.transform(&word, vec![], &mut None)?;
+            Self::remove_empty_syllables(&mut res);
+            return Ok(res)
         } 
         
         let mut word = word;
@@ -147,7 +149,15 @@ impl SubRule {
                 break
             }
         }
+        Self::remove_empty_syllables(&mut word);
         Ok(word)
+    }
+
+    /// Moving or inserting boundaries can leave a syllable without segments; such a syllable does not exist.
+    fn remove_empty_syllables(word: &mut Word) {
+        if word.syllables.iter().any(|s| !s.segments.is_empty()) {
+            word.syllables.retain(|s| !s.segments.is_empty());
+        }
     }
 
     fn match_before_env(&self, states: &[Item], word_rev: &Word, pos: &SegPos, ins_match_before: bool, is_context: bool) -> Result<bool, RuleRuntimeError> {
